@@ -3,6 +3,7 @@
 package cache
 
 import (
+	"errors"
 	"time"
 
 	"github.com/vicanso/pike/store"
@@ -17,11 +18,20 @@ var errStoreNotFound = store.ErrNotFound
 var ghostInflight int // requests of status fetching currently "at the upstream"
 var ghostFetches int  // total number of fetching requests
 var ghostPasses int   // requests forwarded as hit-for-pass
+var ghostUncacheable int // fetches that ended (or are about to end) as hit-for-pass
 var ghostTTL int
 var ghostHFP int
 
 func bmcRequest(hc *httpCache, name string) {
 	status, resp := hc.Get()
+	if verifParked() > 0 && status != StatusHit {
+		// this request waited behind an in-flight fetch.  If every fetch so far turned out cacheable,
+		// so did the one it waited for, and it must be answered from it (also when the entry expires
+		// between its wake-up and its resumption) instead of going to the upstream itself.
+		verifAtomic(func() {
+			verifAssert("C01.waiter-answered-from-cacheable-fetch", ghostUncacheable > 0)
+		})
+	}
 	switch status {
 	case StatusFetching:
 		verifAtomic(func() {
@@ -30,7 +40,12 @@ func bmcRequest(hc *httpCache, name string) {
 		})
 		verifAssert("C02.fetcher-gets-no-response", resp == nil)
 		outcome := verifChoice("outcome", 2)
-		verifAtomic(func() { ghostInflight-- })
+		verifAtomic(func() {
+			ghostInflight--
+			if outcome != 0 {
+				ghostUncacheable++
+			}
+		})
 		if outcome == 0 {
 			verifReach("bmc.cacheable")
 			hc.Cacheable(&HTTPResponse{}, ghostTTL)
@@ -124,8 +139,15 @@ func (s *bmcStore) Get(key []byte) (data []byte, err error) {
 	return
 }
 
+var errBMCStoreSet = errors.New("bmc store: set failed")
+
+// Set succeeds or fails, the solver decides per call (C10: waiters are released under write errors too)
 func (s *bmcStore) Set(key []byte, data []byte, ttl time.Duration) error {
 	verifAtomic(func() { s.sets++ })
+	if verifChoice("setFails", 2) == 1 {
+		verifReach("bmc.store-set-fails")
+		return errBMCStoreSet
+	}
 	return nil
 }
 func (s *bmcStore) Delete(key []byte) error { return nil }
